@@ -5,6 +5,7 @@ RecPool  - pool (.map/.close/.size) passed as pool=: records task tuples, runs t
 make_rec_helper - Python subclass of the (compiled or shim) CJokerHelper: records kernel calls, injects ll values
 """
 import hashlib
+import os
 import random
 
 import numpy as np
@@ -46,6 +47,12 @@ class Recorder:
     def tick(self, kind):
         self.counts[kind] = self.counts.get(kind, 0) + 1
         if self.fault and self.fault[0] == kind and self.fault[1] == self.counts[kind]:
+            marker = getattr(self, "fault_marker", None)      # lets the parent see that the fault fired inside a worker process
+            if marker:
+                try:
+                    open(marker + ".%d" % os.getpid(), "w").close()
+                except OSError:
+                    pass
             if len(self.fault) > 2 and self.fault[2] == "interrupt":
                 raise InjectedInterrupt("injected at %s #%d" % self.fault[:2])
             raise InjectedFault("injected at %s #%d" % self.fault[:2])
